@@ -64,7 +64,7 @@ class C13:
     exhaustive = True
     rule = (
         "cases = (operation in {flush at_exit, background flush, delete, erasedups, stale-lock unlock, gc removal}, generated pre-state of 1-3 history files with 0-40 commands, ASCII and Unicode, file sizes "
-        "straddling 8 KiB) x every audited event k of that operation instance x {kill before the call, partial write of 0 / 1 / half / len-1 bytes, failing call with ENOSPC / EIO / EACCES / EMFILE}; "
+        "straddling 8 KiB) x every audited event k of that operation instance x {kill before the call, partial write of 0 / 1 / half / len-1 bytes, failing call with ENOSPC / EIO / EACCES / EMFILE, kill right after a rename / remove took effect} plus the whole operation under RLIMIT_FSIZE limits around every staged file's size; "
         "exhaustive per operation instance (event count from a dry run); SQLite append / delete / erasedups / gc are killed at every enumerated write-class syscall via strace injection (subset in quick); "
         "distinct_nontrivial = distinct (operation, pre-state shape, event kind, fault mode) tuples in which the fault actually fired"
     )
